@@ -9,7 +9,7 @@ correspond  `rewriteline` = real plan_operation (real build_styles_list) + apply
             `rewritefile` / `resolvectx` (harness only): context-heavy multi-line files, oracle-judged
 oracle      independent: expected line = d1 + gen.render(style, replacement words) + d2 when the occurrence style is enabled
             under the documented option semantics, unchanged otherwise; ambiguity clause on flat / single-word occurrences.
-            Exhaustive over (term pair, input styles) combos x 12 visible styles x 11 delimiter contexts x 30 option sets.
+            Exhaustive over (term pair, input styles) combos x 12 visible styles x 18 delimiter contexts (7 of them non-ASCII or control bytes) x 30 option sets.
             A failing case must fall under a listed finding class by the decidable description below, else VIOLATION.
 witnesses   corpus/C06/*.json replayed on the harness (findings still real + regression cases, among them the repaired
             Sentence-case occurrence, which is also run through the CLI binary)
@@ -24,7 +24,12 @@ from .common import hexs, unhex
 # neutral delimiter contexts: line start/end, spaces, quotes, brackets, '/', '::', '.', ',' and an occurrence inside a
 # sentence of other lower-case words (spaces are neutral delimiters)
 DELIMS = [("", ""), (" ", " "), ('"', '"'), ("'", "'"), ("(", ")"), ("[", "]"), ("/", "/"), ("::", "::"), (".", "."),
-          (",", ","), ("see ", " now")]
+          (",", ","), ("see ", " now"),
+          # quotes and brackets that are not ASCII (the quantifier says "quotes, brackets"; `is_boundary` treats every
+          # non-alphanumeric byte as a delimiter), an em dash touching the term, a byte-order mark at the start of the
+          # file, a control byte
+          ("\u201c", "\u201d"), ("\u2018", "\u2019"), ("\u00ab", "\u00bb"), ("\u300c", "\u300d"), ("\u2014", "\u2026"),
+          ("\ufeff", "\u2122"), ("\x01", "\x7f")]
 ALL_DEFAULT = ",".join(gen.DEFAULT_STYLES)
 SCANNER7 = ["snake", "kebab", "camel", "pascal", "screaming_snake", "train", "screaming_train"]
 SEPS = "_-. "
@@ -454,7 +459,7 @@ def run(ctx):
     opt_sets = option_sets()
     ctx.cov["rule"] = (
         "rewriteline requests: (term pair, typed styles) combos [thorough: 12, one per boundary-visible input style of the search "
-        "term; quick: the first 2 + one seed-chosen] x 12 boundary-visible occurrence styles x 11 delimiter contexts x 30 option "
+        "term; quick: the first 2 + one seed-chosen] x 12 boundary-visible occurrence styles x 18 delimiter contexts (7 of them non-ASCII or control bytes) x 30 option "
         "sets (default, --only-styles each of 14, --exclude-styles each of 11, 3 --include-styles sets, exclude-all), exhaustive; "
         "typed style pairs: search and replacement typed in independently chosen styles (thorough all 12 x 14, quick every pair inside "
         "one separator family + a third of the rest) x 3 option sets x 12 occurrence styles, the as-typed occurrence on both "
